@@ -60,7 +60,7 @@ ASSUMPTIONS = [
 
 PREFIXES = (REPO.rstrip('/') + '/ombott/', echo.__file__.rsplit('/', 1)[0] + '/')
 KINDS = ['echo_get', 'echo_post', 'echo_head', 'upload', 'raise_err', 'raise_resp', 'teapot', 'crash', 'gen',
-         'notfound', 'notallowed', 'json404', 'badchunk', 'chunked_ok', 'big', 'badpath', 'echo_put', 'hookcrash', 'badchunk_json', 'badjson', 'goodjson', 'badchunk_sizeline', 'busy_str', 'limit_num', 'upload_typed', 'upload_plain', 'badmultipart']
+         'notfound', 'notallowed', 'json404', 'badchunk', 'chunked_ok', 'big', 'badpath', 'echo_put', 'hookcrash', 'badchunk_json', 'badjson', 'goodjson', 'badchunk_sizeline', 'busy_str', 'limit_num', 'upload_typed', 'upload_plain', 'badmultipart', 'boom_fixed_url']
 _MARK = re.compile(r'Z\d+z')
 
 
@@ -159,6 +159,8 @@ def environ_of(spec):
         method, path = 'POST', '/body/' + m
         body = b'3\r\n' + m.encode()[:3] + b'\r\n1'
         kw = {'chunked': True}
+    elif kind == 'boom_fixed_url':
+        path = '/boom'
     elif kind == 'busy_str':
         path = '/busy/' + m
     elif kind == 'limit_num':
@@ -167,7 +169,10 @@ def environ_of(spec):
         path = '/echo/' + m
     else:
         raise HarnessError(f'unknown kind {kind}')
-    env = make_environ(method, path, f'm={m}&x=1' + ('&hc=1' if kind == 'hookcrash' else ''), headers, stream=io.BytesIO(body or b''), **kw)
+    query = f'm={m}&x=1' + ('&hc=1' if kind == 'hookcrash' else '')
+    if kind == 'boom_fixed_url':
+        query = 'x=1'
+    env = make_environ(method, path, query, headers, stream=io.BytesIO(body or b''), **kw)
     env['sim.m'] = m
     return env
 
